@@ -176,6 +176,28 @@ def run_impl(c):
             return {'out': ' '.join(['ok'] + [show_str(x) for x in chunks]) + ' | cli ' + show_str(cenc) + ' ' + show_str(cback),
                     'fail': {'kind': 'cli-differs', 'detail': 'scheme %s, strict=%s, %r: command-line tools give %r -> %r, the objects give %r -> %r (+ final newline)'
                              % (c['prot'], c['sls'], s[:60], cenc[:120], cback[:80], text[:120], want_back[:80])}, 'sig': 'cli'}
+    if c.get('via') in ('rule', 'ruleobjs', 'partial0'):
+        # other documented spellings of the same encoder: the built-in table as a rule object carrying the scheme itself
+        # (replacement_latex_protection on the rule overrides the encoder-wide one, here a weaker one), the rule objects of
+        # get_builtin_conversion_rules, the partial encoder keeping no characters
+        from pylatexenc import latexencode as le
+        try:
+            if c['via'] == 'rule':
+                e2 = le.UnicodeToLatexEncoder(conversion_rules=[le.UnicodeToLatexConversionRule(
+                        le.RULE_DICT, le.get_builtin_uni2latex_dict(), replacement_latex_protection=c['prot'])],
+                        replacement_latex_protection=c.get('wide', 'none'), unknown_char_warning=False)
+            elif c['via'] == 'ruleobjs':
+                e2 = le.UnicodeToLatexEncoder(conversion_rules=le.get_builtin_conversion_rules('defaults'),
+                                              replacement_latex_protection=c['prot'], unknown_char_warning=False)
+            else:
+                e2 = le.PartialLatexToLatexEncoder(keep_latex_chars='', replacement_latex_protection=c['prot'], unknown_char_warning=False)
+            text2 = e2.unicode_to_latex(s)
+        except Exception as e:
+            return {'out': 'raise ' + type(e).__name__, 'fail': {'kind': 'spelling-raised-' + type(e).__name__, 'detail': c['via'] + ': ' + str(e)[:200]}, 'sig': 'enc-raise'}
+        if text2 != text:
+            return {'out': ' '.join(['ok'] + [show_str(x) for x in chunks]) + ' | ' + c['via'] + ' ' + show_str(text2),
+                    'fail': {'kind': 'spelling-differs:' + c['via'], 'detail': 'scheme %r on %r through spelling %r (encoder-wide %r): %r, UnicodeToLatexEncoder(replacement_latex_protection=scheme) gives %r'
+                             % (c['prot'], s[:60], c['via'], c.get('wide'), text2[:120], text[:120])}, 'sig': 'spelling'}
     if c.get('via') == 'shorthand':
         # the documented front door: the module-level unicode_to_latex() with its process-wide cache of encoder objects,
         # after calls with other option values in the same process; it must return what an encoder object returns
@@ -314,6 +336,18 @@ def cases(tier, rng):
         p, q = rng.choice(COMBOS)
         c = rt(s, p, q)
         c['other'] = rng.choice(['lc', 'mc', 'eq'])
+        yield c
+    # 4c. other documented spellings of the encoder
+    for _ in range(450 if quick else 6000):
+        L = rng.randint(1, 8)
+        s = ''.join(rng.choice(A) if rng.random() < 0.6 else rng.choice('ab c~%') for _ in range(L))
+        if not par_clean(s):
+            continue
+        p, q = rng.choice(COMBOS)
+        c = rt(s, p, q)
+        c['via'] = rng.choice(['rule', 'rule', 'ruleobjs', 'partial0'])
+        if c['via'] == 'rule':
+            c['wide'] = rng.choice(['none', 'none', 'braces', 'braces-all', 'braces-after-macro'])
         yield c
     # 5. through the two command-line tools
     for _ in range(150 if quick else 2500):
